@@ -42,6 +42,9 @@ type c19Case struct {
 	// Twins: the knowledge base also holds the "else" twin of every comparison rule, !(L op R), after (1) or
 	// before (2) the plain rules
 	Twins int `json:"negated_twins,omitempty"`
+	// Lit: the right (1) or left (2) operand is written as an integer literal in the rule text instead of being
+	// read from a fact field (only for plain integer operands within the int64 range)
+	Lit int `json:"operand_as_literal,omitempty"`
 }
 
 var c19IntKinds = []string{"int", "int8", "int16", "int32", "int64", "uint", "uint8", "uint16", "uint32", "uint64"}
@@ -437,13 +440,43 @@ func c19Lib(lf, rf string, ordered bool, twins int) (*ast.KnowledgeLibrary, erro
 	return lib, nil
 }
 
+// c19LitLib builds the six rules with one operand written as a literal.
+func c19LitLib(lf, rf string, c c19Case) (*ast.KnowledgeLibrary, error) {
+	l, r := "F."+lf, "G."+rf
+	if c.Lit == 1 {
+		r = strconv.FormatInt(c.R.I, 10)
+	} else {
+		l = strconv.FormatInt(c.L.I, 10)
+	}
+	var b strings.Builder
+	for _, o := range [][2]string{{"EQ", "=="}, {"NEQ", "!="}, {"LT", "<"}, {"GT", ">"}, {"LTE", "<="}, {"GTE", ">="}} {
+		fmt.Fprintf(&b, "rule %s { when %s %s %s then Retract(\"%s\"); }\n", o[0], l, o[1], r, o[0])
+	}
+	return obs.Build(b.String())
+}
+
+func c19IntLiteralOK(o c19Operand) bool {
+	switch o.Kind {
+	case "int", "int8", "int16", "int32", "int64", "uint", "uint8", "uint16", "uint32", "uint64":
+		return o.Wrap == ""
+	}
+	return false
+}
+
 func c19ViaGRL(c c19Case) (sixResults, bool, error) {
 	lf, ok1 := c19Field(c.L)
 	rf, ok2 := c19Field(c.R)
 	if !ok1 || !ok2 {
 		return sixResults{}, false, nil
 	}
-	lib, err := c19Lib(lf, rf, c.Family != "bool", c.Twins)
+	var lib *ast.KnowledgeLibrary
+	var err error
+	if (c.Lit == 1 && c19IntLiteralOK(c.R)) || (c.Lit == 2 && c19IntLiteralOK(c.L)) {
+		lib, err = c19LitLib(lf, rf, c)
+		c.Twins = 0
+	} else {
+		lib, err = c19Lib(lf, rf, c.Family != "bool", c.Twins)
+	}
 	if err != nil {
 		return sixResults{}, true, fmt.Errorf("building comparison rules: %v", err)
 	}
@@ -591,6 +624,9 @@ func genC19(t *rapid.T) c19Case {
 	c.GRL = rapid.IntRange(0, 3).Draw(t, "grl") > 0
 	if c.GRL {
 		c.Twins = rapid.IntRange(0, 2).Draw(t, "negated_twins")
+		if rapid.IntRange(0, 3).Draw(t, "literal_operand") == 0 {
+			c.Lit = rapid.IntRange(1, 2).Draw(t, "literal_side")
+		}
 	}
 	return c
 }
@@ -605,7 +641,7 @@ func c19NonTrivial(c c19Case) bool {
 }
 
 func TestC19(t *testing.T) {
-	col := stats.New("C19", "ordered pairs of operand kinds within a family (10 integer kinds, 2 float kinds, string, bool, time), values from a boundary pool or aimed at the other operand (equal / adjacent), optionally behind pointers or interfaces; checked on pkg.Evaluate* directly, with swapped operands, and through six GRL rules over typed fact fields (in two thirds of those cases next to their negated else-twins !(L op R), which must give the complement). Non-trivial: operands differ in kind, wrapper, location or monotonic reading, or compare equal. Distinct by the full case.",
+	col := stats.New("C19", "ordered pairs of operand kinds within a family (10 integer kinds, 2 float kinds, string, bool, time), values from a boundary pool or aimed at the other operand (equal / adjacent), optionally behind pointers or interfaces; checked on pkg.Evaluate* directly, with swapped operands, and through six GRL rules over typed fact fields (in two thirds of those cases next to their negated else-twins !(L op R), which must give the complement; in a quarter of them one integer operand is written as a literal in the rule text). Non-trivial: operands differ in kind, wrapper, location or monotonic reading, or compare equal. Distinct by the full case.",
 		"unsigned values are restricted to the int64 range and NaN is excluded, as the property states",
 		"the reference order is float64 promotion when a float is involved and int64 comparison otherwise (the documented arithmetic)")
 	defer col.Flush()
